@@ -208,6 +208,157 @@ def router(e3):
             check.discharge_many(e3.res, specs, 120)
 
 
+def stack_layers(e3):
+    """Stack::new(Fanout[r1, r2]).push(PrefixLayer(p_in)).push(PrefixLayer(p_out)) built through the real constructors; then
+    describe_<kind>(name); register_<kind>(key) twice (an equal key); an update through the second handle. Recorders r1, r2 are recording
+    doubles. Oracle: every operation reaches each of r1, r2 exactly once, in order, with the name `p_in.p_out.name` ... see below."""
+    import z3
+    import _e3
+    from mirsmt import sym, models, check, models_str as MS, models_coll as MC
+    from mirsmt.sym import Ptr, Agg, Enum, Native, Fork, UNIT, bv, Opaque, TailCall, Script
+    P = _e3.program(["metrics-util", "metrics"])
+    fo = lambda n: [b for b in P.by_last[n] if b.impl and b.impl[1] == "Fanout" and b.impl[0] == "Recorder"][0]
+    pf = lambda n: [b for b in P.by_last[n] if b.impl and b.impl[1] == "Prefix" and b.impl[0] == "Recorder"][0]
+    fb_add = [b for b in P.by_last["add_recorder"] if b.impl and b.impl[1] == "FanoutBuilder"][0]
+    fb_build = [b for b in P.by_last["build"] if b.impl and b.impl[1] == "FanoutBuilder"][0]
+    pl_new = [b for b in P.by_last["new"] if b.impl and b.impl[1] == "PrefixLayer"][0]
+    pl_layer = [b for b in P.by_last["layer"] if b.impl and b.impl[1] == "PrefixLayer"][0]
+    for kind, upd in (("counter", "increment"), ("gauge", "set"), ("histogram", "record")):
+        for plens in ((1, 2, 3), (2, 1, 5)):
+            p_in = tuple(z3.BitVec(f"pin_{i}", 32) for i in range(plens[0]))
+            p_out = tuple(z3.BitVec(f"pout_{i}", 32) for i in range(plens[1]))
+            nm = tuple(z3.BitVec(f"name_{i}", 32) for i in range(plens[2]))
+            val = z3.BitVec("value", 64)
+            ascii_ = [z3.And(z3.UGE(c, bv(33, 32)), z3.ULE(c, bv(126, 32))) for c in p_in + p_out + nm]
+
+            def kind_of(v):
+                if isinstance(v, Native) and v.kind == "rec":
+                    return "double"
+                if isinstance(v, Agg) and any(isinstance(x, Native) and x.kind in ("sstr", "str") for x in v.f.values()):
+                    return "Prefix"          # the layer that holds a prefix string
+                if isinstance(v, Agg) and any(isinstance(x, Native) and x.kind == "lvec" for x in v.f.values()):
+                    return "Fanout"          # the layer that holds a list of recorders
+                raise sym.Unsupported(f"recorder value {v}")
+
+            def m_recorder_call(eng, ctx, f, path, args, dty):
+                """<R as Recorder>::op on a generic / dyn receiver: dispatched on the value (double, Prefix<_>, Fanout)"""
+                op = path.rsplit("::", 1)[1].split("::<")[0]
+                r = MC.load(eng, ctx, args[0])
+                k = kind_of(r)
+                if k == "double":
+                    if op.startswith("describe"):
+                        ctx.observe("delivered", rec=r.data, op=op, name=MS.as_items(eng, ctx, args[1]), unit=args[2], desc=args[3])
+                        return UNIT
+                    key = MC.load(eng, ctx, args[1])
+                    ctx.observe("delivered", rec=r.data, op=op, name=key.data["name"], labels=key.data["labels"], meta=args[2])
+                    n = ctx.statics.get("nhandles", 0)
+                    ctx.statics["nhandles"] = n + 1
+                    return Agg({0: Enum(1, {1: Agg({0: Native("ihandle", (r.data, n))})}, "Option")})
+                body = (pf if k == "Prefix" else fo)(op)
+                a0 = args[0]
+                if not isinstance(a0, Ptr):
+                    a0 = Ptr(("static", MC.new_cell(ctx, a0, "recv")))
+                return TailCall(body, [a0] + list(args[1:]))
+
+            def m_handle_call(eng, ctx, f, path, args, dty):
+                """<dyn CounterFn/GaugeFn/HistogramFn>::op: a double's handle records the update, a Fanout* handle runs its real impl"""
+                op = path.rsplit("::", 1)[1]
+                h = MC.load(eng, ctx, args[0])
+                if isinstance(h, Native) and h.kind == "ihandle":
+                    ctx.observe("updated", rec=h.data[0], handle=h.data[1], op=op, value=args[1])
+                    return UNIT
+                tr = {"counter": "CounterFn", "gauge": "GaugeFn", "histogram": "HistogramFn"}[kind]
+                cands = [b for b in P.by_last[op] if b.impl and b.impl[0] == tr and b.impl[1].startswith("Fanout")]
+                if len(cands) != 1:
+                    raise sym.Unsupported(f"handle call {path} on {h}")
+                a0 = args[0]
+                if not isinstance(a0, Ptr):        # the receiver reached us by value (Arc / Box are transparent in the model): give it a place
+                    a0 = Ptr(("static", MC.new_cell(ctx, a0, "recv")))
+                return TailCall(cands[0], [a0] + list(args[1:]))
+            m = {r" as (\w+::)*Recorder>::(describe|register)_(counter|gauge|histogram)$": m_recorder_call,
+                 r" as (\w+::)*(CounterFn|GaugeFn|HistogramFn)>::(increment|absolute|decrement|set|record|record_many)$": m_handle_call,
+                 r"^Arc::new$|^Box::new$|^Box::leak$|into_boxed_str$|IntoF64>::into_f64$": models.m_identity,
+                 r"^KeyName::as_str$": lambda eng, ctx, f, path, args, dty: MS.sstr(MS.as_items(eng, ctx, args[0])),
+                 r"^<KeyName as From>::from$|^<KeyName as From<String>>::from$|^<KeyName as Clone>::clone$|^<&?(str|String) as Into>::into$|^<\w*Cow as Clone>::clone$|^<\w*Cow as From(<.*>)?>::from$|as AsRef>::as_ref$|as AsRef<str>>::as_ref$|^<\w*Cow as Deref>::deref$|^<\w*Cow as AsRef>::as_ref$":
+                     lambda eng, ctx, f, path, args, dty: MC.load(eng, ctx, args[0]),
+                 r"^Key::name$": lambda eng, ctx, f, path, args, dty: MS.sstr(MC.load(eng, ctx, args[0]).data["name"]),
+                 r"^Key::labels$": lambda eng, ctx, f, path, args, dty: Native("labels", MC.load(eng, ctx, args[0]).data["labels"]),
+                 r"^Key::from_parts$": lambda eng, ctx, f, path, args, dty: Native("akey", {"name": MS.as_items(eng, ctx, args[0]), "labels": MC.load(eng, ctx, args[1]).data if isinstance(MC.load(eng, ctx, args[1]), Native) else None}),
+                 r"^<Key as Clone>::clone$": lambda eng, ctx, f, path, args, dty: MC.load(eng, ctx, args[0])}
+            m.update(models.BASE)
+            eng = sym.Engine(P, models=m, loop_bound=6, max_paths=3000)
+            eng.merging = False
+            ctx0 = sym.Ctx(eng, 1)
+            key = Native("akey", {"name": nm, "labels": "L"})
+            reg_pf = pf(f"register_{kind}")
+            desc_pf = pf(f"describe_{kind}")
+            hfind = lambda t, mth: [b for b in P.by_last[mth] if b.impl and b.impl[1] == t and b.impl[0] is None and b.crate == "metrics"][0]
+            hcall = {"counter": hfind("Counter", "increment"), "gauge": hfind("Gauge", "set"), "histogram": hfind("Histogram", "record")}[kind]
+
+            def script():
+                fbv = Agg({0: MS.lvec(())})          # FanoutBuilder::default(): an empty recorder list
+                fbv = yield ("call", fb_add, [fbv, Native("rec", 1)])
+                fbv = yield ("call", fb_add, [fbv, Native("rec", 2)])
+                fan = yield ("call", fb_build, [fbv])
+                l_in = yield ("call", pl_new, [MS.sstr(p_in)])
+                yield ("setstatic", "l_in", l_in)
+                inner = yield ("call", pl_layer, [Ptr(("static", "l_in")), fan])
+                l_out = yield ("call", pl_new, [MS.sstr(p_out)])
+                yield ("setstatic", "l_out", l_out)
+                outer = yield ("call", pl_layer, [Ptr(("static", "l_out")), inner])
+                yield ("setstatic", "stack", outer)
+                sp = Ptr(("static", "stack"))
+                yield ("call", desc_pf, [sp, MS.sstr(nm), Opaque("unit"), Opaque("desc")])
+                yield ("setstatic", "key", key)
+                h1 = yield ("call", reg_pf, [sp, Ptr(("static", "key")), Opaque("metadata")])
+                h2 = yield ("call", reg_pf, [sp, Ptr(("static", "key")), Opaque("metadata")])
+                yield ("setstatic", "h2", h2)
+                yield ("call", hcall, [Ptr(("static", "h2")), val])
+                return None
+            leaves = eng.run_script(1, "stack", script, ctx0=ctx0)
+            e3.absorb(eng)
+            done = [l for l in leaves if l.status == "done"]
+            other = z3.Or(*[l.taken() for l in leaves if l.status != "done"] or [z3.BoolVal(False)])
+            dot = (bv(46, 32),)
+            want_name = p_in + dot + p_out + dot + nm
+            bad = []
+            for l in done:
+                for r in (1, 2):
+                    dl = [pl for lab, e, pl in l.obs if lab == "delivered" and pl["rec"] == r]
+                    ops = [pl["op"] for pl in dl]
+                    ok_ops = ops == [f"describe_{kind}", f"register_{kind}", f"register_{kind}"]
+                    conds = [z3.BoolVal(ok_ops)]
+                    for pl in dl:
+                        conds.append(MS.text_eq(tuple(pl["name"]), want_name) if len(pl["name"]) == len(want_name) else z3.BoolVal(False))
+                        if pl["op"].startswith("register"):
+                            conds.append(z3.BoolVal(pl["labels"] == "L" and isinstance(pl["meta"], Opaque) and pl["meta"].what == "metadata"))
+                        else:
+                            conds.append(z3.BoolVal(isinstance(pl["unit"], Opaque) and pl["unit"].what == "unit" and isinstance(pl["desc"], Opaque) and pl["desc"].what == "desc"))
+                    ups = [pl for lab, e, pl in l.obs if lab == "updated" and pl["rec"] == r]
+                    # the update through the second handle reaches this recorder's *second* handle once, with the value
+                    hs = sorted(pl2 for pl2 in {1}) and [pl for pl in ups]
+                    conds.append(z3.BoolVal(len(ups) == 1))
+                    if len(ups) == 1:
+                        conds.append(z3.BoolVal(ups[0]["op"] == upd))
+                        conds.append(ups[0]["value"] == val if z3.is_expr(ups[0]["value"]) else z3.BoolVal(False))
+                        regs = [i for i, pl in enumerate([x for x in l.obs if x[0] in ("delivered",) and x[2]["rec"] == r and x[2]["op"].startswith("register")])]
+                    bad.append(z3.And(l.taken(), z3.Not(z3.And(*conds))))
+            cname = f"c13_stack_{kind}_p{plens[0]}{plens[1]}n{plens[2]}"
+            bounds = (f"Stack: Fanout[r1, r2] <- PrefixLayer(p_in, {plens[0]} chars) <- PrefixLayer(p_out, {plens[1]} chars), built by the real constructors; describe_{kind}(name of {plens[2]} chars), register_{kind}(key) twice, "
+                      f"{upd}(v) through the second handle; all characters printable ASCII and symbolic (so names that already begin with a prefix are included); {len(done)} paths")
+
+            def on_model(ob, model, p_in=p_in, p_out=p_out, nm=nm, kind=kind):
+                inputs = {"op": ["counter", "gauge", "histogram"].index(kind)}
+                inputs.update(text_inputs(model, "pin", p_in)); inputs.update(text_inputs(model, "pout", p_out)); inputs.update(text_inputs(model, "name", nm))
+                ob.sample = dict(inputs)
+                replay_native(ob, "c13_stack", ob.name.split(":")[1], inputs)
+            specs = [dict(name=f"{cname}:witness", desc="completes", bounds=bounds, cons=ascii_ + [z3.Or(*[l.taken() for l in done] or [z3.BoolVal(False)])], expect_unsat=False),
+                     dict(name=f"{cname}:returns", desc="panics", bounds=bounds, cons=ascii_ + [other], expect_unsat=True),
+                     dict(name=f"{cname}:composition_delivers_each_operation_once_with_both_prefixes", desc="an inner recorder does not receive exactly describe, register, register (each once, in order) with the name `p_in.p_out.name`, labels / metadata / "
+                          "unit / description unchanged, or the update through the second handle does not reach it exactly once with the same value", bounds=bounds, cons=ascii_ + [z3.Or(*bad or [z3.BoolVal(False)])], expect_unsat=True, on_model=on_model)]
+            check.discharge_many(e3.res, specs, 120)
+
+
 def filter_layer(e3):
     """FilterLayer built through its real constructor and setters: from_patterns([p0]); case_insensitive(b); use_dfa(b); layer(r1);
     reconfigure (flags again, or add_pattern(p1)); layer(r2); then one operation through both filters. A filter must drop the operation
@@ -336,7 +487,7 @@ def run(tier, seed, t0):
     import _e3
     from mirsmt import sym
     e3 = _e3.E3("C13")
-    for nm_, fn in (("c13_router", router), ("c13_filter", filter_layer)):
+    for nm_, fn in (("c13_router", router), ("c13_filter", filter_layer), ("c13_stack", stack_layers)):
         try:
             fn(e3)
         except _e3.ENC_ERRORS as ex:
